@@ -39,10 +39,14 @@ func snapJSON(gs *pokerface.GameState) string {
 }
 
 func applyOp(g pokerface.Game, op Op) error {
-	if op.Seat >= 0 {
-		p := g.Player(op.Seat)
+	if op.Seat >= 0 || op.Seat == seatMinusOne {
+		idx := op.Seat
+		if idx == seatMinusOne {
+			idx = -1
+		}
+		p := g.Player(idx)
 		if p == nil {
-			return fmt.Errorf("harness: no such seat %d", op.Seat)
+			return fmt.Errorf("harness: no such seat %d", idx)
 		}
 		switch op.Name {
 		case "pass":
@@ -96,6 +100,9 @@ func applyOp(g pokerface.Game, op Op) error {
 	}
 	return fmt.Errorf("harness: unknown op %s", op.Name)
 }
+
+// Op.Seat == -1 means "through the Game-level method"; seat index -1 itself is addressed with this value
+const seatMinusOne = -1000
 
 func isWaitEvent(ev string) bool {
 	switch ev {
